@@ -4,7 +4,10 @@
 #include <cstdint>
 #include <cstdio>
 #include <cstdlib>
+#include <atomic>
 #include <cstring>
+#include <mutex>
+#include <thread>
 #include <locale>
 #include <map>
 #include <set>
@@ -350,6 +353,44 @@ namespace verif
     {
         uint64_t h = fnv1a(d, n, 0xe7740) % 8;
         return h == 1 ? 34 /* ERANGE */ : h == 2 ? 22 /* EINVAL */ : 0;
+    }
+
+    // ---- several threads at once -----------------------------------------------------------------
+    // Value-level APIs (parse a date, a cookie, a media type, an address ...) are used from whatever thread the
+    // application happens to be on, several at a time.  Runs body(t) on n threads released together and returns the
+    // first failure text (empty: none).  Harnesses use it for one case in sixteen, with different values per thread.
+    template <typename Body>
+    std::string on_threads(int n, Body body)
+    {
+        std::string failure;
+        std::mutex m;
+        std::atomic<bool> go { false };
+        std::vector<std::thread> th;
+        for (int t = 0; t < n; ++t)
+            th.emplace_back([&, t] {
+                while (!go)
+                {
+                }
+                std::string f;
+                try
+                {
+                    f = body(t);
+                }
+                catch (const std::exception& e)
+                {
+                    f = std::string("thread ") + std::to_string(t) + " threw " + e.what();
+                }
+                if (!f.empty())
+                {
+                    std::lock_guard<std::mutex> g(m);
+                    if (failure.empty())
+                        failure = f;
+                }
+            });
+        go = true;
+        for (auto& x : th)
+            x.join();
+        return failure;
     }
 
     // Implemented by each property harness -------------------------------------
